@@ -71,8 +71,12 @@ def D(name, version, **kw):
     return d
 
 
+VIEWPORT = [("name", "viewport"), ("content", "width=device-width")]
+
+
 def d_a1():
-    return D("a", "1.0", head=[("html", "<x>"), T("style", ("text", "p{}"))], script=[[("src", "s 1.js"), ("defer", "")]],
+    # a1 and b declare a byte-identical <meta> (and b declares it twice): every dependency's own markup is emitted
+    return D("a", "1.0", extra_meta=[list(VIEWPORT)], head=[("html", "<x>"), T("style", ("text", "p{}"))], script=[[("src", "s 1.js"), ("defer", "")]],
              stylesheet=[[("href", "c.css")]], source=("subdir", None, "srcdir", ""))
 
 
@@ -82,7 +86,7 @@ def d_a2():
 
 
 def d_b():
-    return D("b", "0.9", head=[T("link", attrs=[("href", ("p", "q"))])], source=None)
+    return D("b", "0.9", extra_meta=[list(VIEWPORT), list(VIEWPORT)], head=[T("link", attrs=[("href", ("p", "q"))])], source=None)
 
 
 _HC_CACHE: dict = {}
@@ -441,6 +445,7 @@ def run(tier: str) -> int:
         ns = rng.randint(0, 2)
         return D(rng.choice(["a", "b", "a b", "é", "x[1]", ";"]), rng.choice(["1", "1.0", "1.10", "2", "0.0", "1.0a1", "3.dev1"]),
                  head=head, source=src,
+                 extra_meta=rng.choice([None, None, [list(VIEWPORT)], [list(VIEWPORT), list(VIEWPORT)], [[("name", "x"), ("content", "y")]]]),
                  script=[[("src", rng.choice(["s.js", "a b.js", "../u.js", "é.js", "/r.js"]))] + ([("async", "")] if rng.random() < 0.3 else [])
                          for _ in range(ns)] if src is not None or rng.random() < 0.5 else None,
                  stylesheet=[[("href", rng.choice(["c.css", "d e.css"]))] for _ in range(rng.randint(0, 1))])
